@@ -173,16 +173,25 @@ class Loader(importlib.abc.Loader):
 
     def exec_module(self, m):
         src = open(self.path, encoding='utf-8').read()
-        tree = ast.parse(src, self.path)
+        import warnings
+        with warnings.catch_warnings():
+            warnings.simplefilter('ignore')
+            tree = ast.parse(src, self.path)
         LITERALS[self.name] = harvest(tree)
         SOURCES[self.name] = self.path
         tree = Rewriter().visit(tree)
+        import warnings
+        warnings.filterwarnings('ignore', category=SyntaxWarning)
         ast.fix_missing_locations(tree)
         d = m.__dict__
         d.update(__sym_join__=core.sym_join, __sym_fmt__=core.sym_fmt, __sym_in__=core.sym_in,
                  __sym_str__=core.sym_str, __sym_method__=core.sym_method, __sym_getitem__=core.sym_getitem,
                  __sym_print__=core.sym_print)
-        exec(compile(tree, self.path, 'exec'), d)
+        import warnings
+        with warnings.catch_warnings():
+            warnings.simplefilter('ignore')
+            code = compile(tree, self.path, 'exec')
+        exec(code, d)
         fixup(m)
         for cb in POST_EXEC:
             cb(m)
@@ -199,6 +208,8 @@ def fixup(m):
         elif v is io.StringIO:
             d[k] = core.SymStringIO
     d.setdefault('set', core.SymSet)
+    from . import stubs
+    stubs.install(m)
 
 
 class Finder(importlib.abc.MetaPathFinder):
